@@ -1,6 +1,7 @@
 SPECIFICATION TSpec
 CONSTANTS MaxA = 0 MaxB = 0 MaxFan = 0
   AsyncModes = {FALSE}
+  Repeats = FALSE Cuts = FALSE
 INVARIANT TypeOK
 INVARIANT UnselIdentityOrder
 INVARIANT SelIndependent
